@@ -56,6 +56,7 @@ type Part struct {
 	NShards      int              `json:"nshards"`
 	Evaluations  int64            `json:"evaluations"`
 	NonTrivial   int64            `json:"nontrivial_local"`
+	BulkDistinct int64            `json:"bulk_distinct"`
 	HashFile     string           `json:"hash_file"`
 	HashCapped   bool             `json:"hash_capped"`
 	Classes      map[string]int64 `json:"classes"`
@@ -254,6 +255,28 @@ func (c *Ctx) Note(sub, class string, nontrivial bool, key uint64, sample func()
 		if c.sampleN[k] < maxSamplesPerClass {
 			c.sampleN[k]++
 			c.P.Samples = append(c.P.Samples, map[string]any{"sub": sub, "class": class, "nontrivial": nontrivial, "case": sample()})
+		}
+	}
+}
+
+// NoteBulk accounts for n enumerated cases at once; distinct of them are
+// non-trivial and distinct by construction (disjoint enumeration indices), so
+// they are added to the distinct count without hashing.
+func (c *Ctx) NoteBulk(sub, class string, n, distinct int64, sample func() any) {
+	c.mu.Lock()
+	defer c.mu.Unlock()
+	c.P.Evaluations += n
+	c.P.Subchecks[sub] += n
+	if class != "" {
+		c.P.Classes[sub+"/"+class] += n
+	}
+	c.P.NonTrivial += distinct
+	c.P.BulkDistinct += distinct
+	if sample != nil && len(c.P.Samples) < maxSamples {
+		k := sub + "/" + class
+		if c.sampleN[k] < maxSamplesPerClass {
+			c.sampleN[k]++
+			c.P.Samples = append(c.P.Samples, map[string]any{"sub": sub, "class": class, "nontrivial": distinct > 0, "case": sample()})
 		}
 	}
 }
@@ -482,20 +505,24 @@ type capTB struct {
 	logs   []string
 }
 
-func (b *capTB) Helper()                     {}
-func (b *capTB) Name() string                { return b.name }
-func (b *capTB) Logf(f string, a ...any)     { b.log(fmt.Sprintf(f, a...)) }
-func (b *capTB) Log(a ...any)                { b.log(fmt.Sprint(a...)) }
-func (b *capTB) Skipf(f string, a ...any)    { panic(failNow{}) }
-func (b *capTB) Skip(a ...any)               { panic(failNow{}) }
-func (b *capTB) SkipNow()                    { panic(failNow{}) }
-func (b *capTB) Errorf(f string, a ...any)   { b.failed = true; b.log(fmt.Sprintf(f, a...)) }
-func (b *capTB) Error(a ...any)              { b.failed = true; b.log(fmt.Sprint(a...)) }
-func (b *capTB) Fatalf(f string, a ...any)   { b.failed = true; b.log(fmt.Sprintf(f, a...)); panic(failNow{}) }
-func (b *capTB) Fatal(a ...any)              { b.failed = true; b.log(fmt.Sprint(a...)); panic(failNow{}) }
-func (b *capTB) FailNow()                    { b.failed = true; panic(failNow{}) }
-func (b *capTB) Fail()                       { b.failed = true }
-func (b *capTB) Failed() bool                { return b.failed }
+func (b *capTB) Helper()                   {}
+func (b *capTB) Name() string              { return b.name }
+func (b *capTB) Logf(f string, a ...any)   { b.log(fmt.Sprintf(f, a...)) }
+func (b *capTB) Log(a ...any)              { b.log(fmt.Sprint(a...)) }
+func (b *capTB) Skipf(f string, a ...any)  { panic(failNow{}) }
+func (b *capTB) Skip(a ...any)             { panic(failNow{}) }
+func (b *capTB) SkipNow()                  { panic(failNow{}) }
+func (b *capTB) Errorf(f string, a ...any) { b.failed = true; b.log(fmt.Sprintf(f, a...)) }
+func (b *capTB) Error(a ...any)            { b.failed = true; b.log(fmt.Sprint(a...)) }
+func (b *capTB) Fatalf(f string, a ...any) {
+	b.failed = true
+	b.log(fmt.Sprintf(f, a...))
+	panic(failNow{})
+}
+func (b *capTB) Fatal(a ...any) { b.failed = true; b.log(fmt.Sprint(a...)); panic(failNow{}) }
+func (b *capTB) FailNow()       { b.failed = true; panic(failNow{}) }
+func (b *capTB) Fail()          { b.failed = true }
+func (b *capTB) Failed() bool   { return b.failed }
 func (b *capTB) log(s string) {
 	if len(b.logs) < 50 {
 		if len(s) > 2000 {
